@@ -91,11 +91,15 @@ def run(ctx):
     okp = [p for p in paths if p.kind == "ret" and U.is_ok(p.ret)]
     ctx.floor("signer success paths", len(okp), 8)
     n = 0
-    for ty, mem, tpi, jav, ceid, cj in itertools.product(("m.room.member", "m.room.message"), ("invite", "join", "leave"),
-                                                        (False, True), (False, True), (False, True), (False, True)):
+    # every literal the implementation compares the type / membership with, plus the spec's, plus "something else"
+    mem_lits = {a[2][1] for a in D.all_atoms(okp) if a[0] == "eq" and "'membership'" in D.show(a[1]) and D.is_const(a[2])}
+    ty_lits = {a[2][1] for a in D.all_atoms(okp) if a[0] == "eq" and "get(object, 'type')" in D.show(a[1]) and D.is_const(a[2])}
+    memberships = sorted(mem_lits | {"invite", "join"}) + ["<other>"]
+    types = sorted(ty_lits | {"m.room.member"}) + ["<other>"]
+    for ty, mem, tpi, jav, ceid, cj in itertools.product(types, memberships, (False, True), (False, True), (False, True), (False, True)):
         sc = dict(type=ty, membership=mem, tpi=tpi, jav=jav, check_event_id_server=ceid, check_join=cj)
         sel = D.evaluate(okp, scenario_valuation(sc))
-        tag = f"type={'member' if ty == 'm.room.member' else 'other'},membership={mem},third_party_invite={tpi},authorising_user={jav},check_event_id={ceid},check_join_authorised={cj}"
+        tag = f"type={'member' if ty == 'm.room.member' else ty},membership={mem},third_party_invite={tpi},authorising_user={jav},check_event_id={ceid},check_join_authorised={cj}"
         if len(sel) != 1:
             ctx.unrecognised("C03.signers", f"C03.signers:{tag}", w.where(f), f"{len(sel)} success paths under this scenario")
             continue
@@ -107,7 +111,7 @@ def run(ctx):
         else:
             # key names the disagreement, not the line
             extra, missing = sorted(got - want), sorted(want - got)
-            cls = f"type={'member' if ty == 'm.room.member' else 'other'},membership={mem if ty == 'm.room.member' else '*'}"
+            cls = f"type={'member' if ty == 'm.room.member' else 'other'},membership={(mem if mem != '<other>' else 'leave') if ty == 'm.room.member' else '*'}"
             ctx.violation("C03.signers", f"C03.signers:{cls}:extra={'+'.join(extra) or '-'}:missing={'+'.join(missing) or '-'}", w.where(f),
                           f"scenario [{tag}]: required signers are {sorted(got)}, the specification requires {sorted(want)}")
     ctx.count("signer_scenarios", n)
